@@ -6,6 +6,12 @@
 (* of whatever lies in lower levels:                                         *)
 (*    SET v -> const v      DEL/DELSIZED/SINGLEDEL/covering RANGEDEL ->      *)
 (*    const absent          MERGE m -> below \o m         nothing -> id      *)
+(*    SETWITHDEL v -> const v: the kind an earlier flush/compaction wrote     *)
+(*    when a SET landed on a DEL of its stripe; later compactions receive it  *)
+(*    as INPUT with arbitrary older versions (live SETs included) beneath it, *)
+(*    in the same stream or in the lower levels: it closes a SINGLEDEL's W1   *)
+(*    region like a DEL, and a SINGLEDEL above it is const absent for all of  *)
+(*    them.                                                                   *)
 (* Compacted(in, out) says: out and in are equal as transformers of every    *)
 (* contract-admissible lower state at every snapshot and at latest, out is   *)
 (* strictly ordered, seqnums are zeroed only in the bottom stripe, and       *)
@@ -219,7 +225,11 @@ RECURSIVE SDelRun(_, _, _)
 SDelRun(e, rest, c) ==
   IF rest = <<>> THEN (IF DropT(c) THEN <<>> ELSE <<Pt(e.k, e.s, KSDel, <<>>)>>)
   ELSE LET x == rest[1] IN
-       IF x.t \in {KDel, KDSz, KSWD} THEN (IF DropT(c) THEN <<>> ELSE <<Pt(e.k, e.s, KDel, <<>>)>>)
+       (* SETWITHDEL = a SET with a collapsed DEL beneath it: the SINGLEDEL must act as a full DEL for  *)
+       (* whatever lies beneath (older versions in this stripe, the lower levels).  Seeded bug            *)
+       (* ElidedSDelOverSWD: the elision path (skipDueToSingleDeleteElision) treats it like a plain SET.  *)
+       IF x.t \in {KDel, KDSz} \/ (x.t = KSWD /\ ~(BugMode = "ElidedSDelOverSWD" /\ DropT(c)))
+       THEN (IF DropT(c) THEN <<>> ELSE <<Pt(e.k, e.s, KDel, <<>>)>>)
        ELSE IF x.t = KSDel THEN SDelRun(e, Tail(rest), c)
        ELSE (* SET or MERGE: both disappear, the rest is processed afresh *)
             IF BugMode = "SDelTwo" /\ Len(rest) >= 2 THEN Collapse(Tail(Tail(rest)), c)
